@@ -13,6 +13,7 @@ import (
 	"net/url"
 	"sort"
 	"strings"
+	"sync"
 	"time"
 
 	"github.com/gin-gonic/gin"
@@ -104,6 +105,23 @@ type outerObs struct {
 
 func (r *recorder) reset() { r.calls, r.inner, r.outer = nil, nil, nil }
 
+// the recorder of a request travels in its context (concurrent requests through one shared
+// instance each have their own); without one the process-wide recorder is used
+type recKey struct{}
+
+var globalRec = &recorder{}
+
+func recFrom(ctx context.Context) *recorder {
+	if r, ok := ctx.Value(recKey{}).(*recorder); ok && r != nil {
+		return r
+	}
+	return globalRec
+}
+
+func withRec(ctx context.Context, r *recorder) context.Context {
+	return context.WithValue(ctx, recKey{}, r)
+}
+
 func (r *recorder) call() *callObs {
 	if len(r.calls) == 0 {
 		return nil
@@ -111,9 +129,10 @@ func (r *recorder) call() *callObs {
 	return r.calls[0]
 }
 
-func (r *recorder) executor() client.HTTPRequestExecutor {
-	return func(_ context.Context, req *http.Request) (*http.Response, error) {
+func (*recorder) executor() client.HTTPRequestExecutor {
+	return func(ctx context.Context, req *http.Request) (*http.Response, error) {
 		u := req.URL
+		r := recFrom(ctx)
 		r.calls = append(r.calls, &callObs{host: u.Scheme + "://" + u.Host, path: u.Path, rawquery: u.RawQuery,
 			frag: u.Fragment, wire: u.RequestURI(), full: u.String()})
 		h := http.Header{}
@@ -372,7 +391,7 @@ func main() {
 	}
 
 	// ================= (ii) load balancer + http proxy =================
-	rec := &recorder{}
+	rec := globalRec
 	ctx := context.Background()
 	asmRun := func(hosts []string, path string, q map[string][]string) (*callObs, string) {
 		rec.reset()
@@ -393,16 +412,67 @@ func main() {
 		}()
 		return rec.call(), errText
 	}
-	asm := func(hosts []string, path string, q map[string][]string, kind string) {
-		c, errText := asmRun(hosts, path, q)
+	asmEmit := func(hosts []string, path string, q map[string][]string, c *callObs, errText string, kind string) {
 		w.Count("asm:" + kind)
 		if c == nil {
 			w.Count("asm:not-called")
 		}
 		w.Add(emit.App("CAsm", emit.StrList(hosts), emit.Str(path), valuesCoq(q), c.coq()),
-			map[string]interface{}{"level": "balancer+http-proxy", "hosts": hosts, "path": path, "path_bytes": []byte(path), "query": q,
+			map[string]interface{}{"level": "balancer+http-proxy", "stream": kind, "hosts": hosts, "path": path, "path_bytes": []byte(path), "query": q,
 				"observed": map[string]interface{}{"call": c.js(), "error": errText}},
 			"", fmt.Sprintf("A|%v|%s|%v", hosts, path, q), strings.ContainsAny(path, "?%# ") || len(q) > 0)
+	}
+	asm := func(hosts []string, path string, q map[string][]string, kind string) {
+		c, errText := asmRun(hosts, path, q)
+		asmEmit(hosts, path, q, c, errText, kind)
+	}
+	// one shared balancer + http proxy instance; the request's recorder travels in its context
+	newLB := func(hosts []string) proxy.Proxy {
+		be := &config.Backend{Encoding: encoding.JSON, Decoder: encoding.JSONDecoder, Method: "GET", Host: hosts}
+		hp := proxy.NewHTTPProxyWithHTTPExecutor(be, rec.executor(), be.Decoder)
+		return proxy.NewLoadBalancedMiddlewareWithSubscriber(sd.FixedSubscriber(hosts))(hp)
+	}
+	asmOn := func(lb proxy.Proxy, path string, q map[string][]string) (*callObs, string) {
+		rc := &recorder{}
+		errText := ""
+		func() {
+			defer func() {
+				if x := recover(); x != nil {
+					errText = fmt.Sprint("panic: ", x)
+				}
+			}()
+			_, err := lb(withRec(ctx, rc), &proxy.Request{Method: "GET", Path: path, Query: cloneValues(q), Headers: map[string][]string{}})
+			if err != nil {
+				errText = err.Error()
+			}
+		}()
+		return rc.call(), errText
+	}
+	type asmIn struct {
+		p string
+		q map[string][]string
+	}
+	qv := func(kv ...string) map[string][]string {
+		m := map[string][]string{}
+		for i := 0; i+1 < len(kv); i += 2 {
+			m[kv[i]] = append(m[kv[i]], kv[i+1])
+		}
+		return m
+	}
+	seqAsm := [][]asmIn{
+		{{"/b/one?s=1", qv("k", "v")}, {"/b/two", nil}, {"/b/three?t=2", qv("z", "a b", "z", "&")}, {"/b/four", qv("k", "w")}, {"/b/five?", nil}, {"/b/one?s=1", qv("k", "v2", "y", "")}},
+		{{"/b", qv("k", "1")}, {"/b", qv("k", "2")}, {"/b", nil}, {"/b?s=1", nil}, {"/b", qv("k", "1", "k", "3")}, {"/b?s=1", qv("k", "1")}},
+		{{"/b/x?s=1", nil}, {"/b/x?s=2", nil}, {"/b/y?s=1", qv("a", "b")}, {"/b/x", qv("a", "b")}, {"/b/x#f", nil}, {"/b/x", nil}, {"/b/%zz", qv("a", "b")}, {"/b/x y", qv("a", "c")}},
+	}
+	// the most telling orders first, on the single-host set (the balancer's random choice among
+	// several hosts would make a replay of host-keyed state non-deterministic): one instance per
+	// sequence; a later step repeats an earlier path with another forwarded query
+	for _, seq := range seqAsm {
+		lb := newLB(hostSets[0])
+		for _, in := range seq {
+			c, errText := asmOn(lb, in.p, in.q)
+			asmEmit(hostSets[0], in.p, in.q, c, errText, "reuse-seq")
+		}
 	}
 	oneQ := map[string][]string{"k": {"v"}}
 	spQ := map[string][]string{"k": {"a b"}, "z": {"&=?#%", ""}}
@@ -468,7 +538,7 @@ func main() {
 	backendFactory := func(be *config.Backend) proxy.Proxy {
 		hp := proxy.NewHTTPProxyWithHTTPExecutor(be, rec.executor(), be.Decoder)
 		return func(ctx context.Context, rq *proxy.Request) (*proxy.Response, error) {
-			rec.inner = &innerObs{path: rq.Path, query: cloneValues(rq.Query)}
+			recFrom(ctx).inner = &innerObs{path: rq.Path, query: cloneValues(rq.Query)}
 			return hp(ctx, rq)
 		}
 	}
@@ -493,8 +563,7 @@ func main() {
 		}
 		stacks = append(stacks, &stackCfg{pt.endpoint, pt.pattern, hosts, ep.Backend[0].URLPattern, p})
 	}
-	stack := func(s *stackCfg, params map[string]string, q map[string][]string, kind string) {
-		rec.reset()
+	stackRun := func(s *stackCfg, rc *recorder, params map[string]string, q map[string][]string) string {
 		errText := ""
 		func() {
 			defer func() {
@@ -506,13 +575,16 @@ func main() {
 			for k, v := range params {
 				pc[k] = v
 			}
-			_, err := s.p(ctx, &proxy.Request{Method: "GET", Params: pc, Query: cloneValues(q), Headers: map[string][]string{}})
+			_, err := s.p(withRec(ctx, rc), &proxy.Request{Method: "GET", Params: pc, Query: cloneValues(q), Headers: map[string][]string{}})
 			if err != nil {
 				errText = err.Error()
 			}
 		}()
-		c := rec.call()
-		inner := rec.inner
+		return errText
+	}
+	stackEmit := func(s *stackCfg, params map[string]string, q map[string][]string, rc *recorder, errText string, kind string) {
+		c := rc.call()
+		inner := rc.inner
 		w.Count("stack:" + kind)
 		w.Count("stack-pattern:" + s.pattern)
 		taint := false
@@ -522,9 +594,14 @@ func main() {
 			}
 		}
 		w.Add(emit.App("CStack", emit.StrList(s.hosts), emit.Str(s.inited), emit.StrMap(params), valuesCoq(q), innerCoq(inner), c.coq()),
-			map[string]interface{}{"level": "default-stack", "hosts": s.hosts, "url_pattern": s.pattern, "url_pattern_inited": s.inited, "params": params, "query": q,
+			map[string]interface{}{"level": "default-stack", "stream": kind, "hosts": s.hosts, "url_pattern": s.pattern, "url_pattern_inited": s.inited, "params": params, "query": q,
 				"observed": map[string]interface{}{"backend_stage": innerJS(inner), "call": c.js(), "error": errText}},
 			"", fmt.Sprintf("S|%s|%v|%v", s.pattern, params, q), taint || len(q) > 0)
+	}
+	stack := func(s *stackCfg, params map[string]string, q map[string][]string, kind string) {
+		rc := &recorder{}
+		errText := stackRun(s, rc, params, q)
+		stackEmit(s, params, q, rc, errText, kind)
 	}
 	mkParams := func(s *stackCfg, a, b string) map[string]string {
 		if strings.Contains(s.endpoint, "{q}") {
@@ -602,7 +679,7 @@ func main() {
 				for k, v := range rq.Params {
 					ps[k] = v
 				}
-				rec.outer = &outerObs{params: ps, query: cloneValues(rq.Query)}
+				recFrom(ctx).outer = &outerObs{params: ps, query: cloneValues(rq.Query)}
 				return p(ctx, rq)
 			}, nil
 		})
@@ -620,33 +697,47 @@ func main() {
 		}
 		gins = append(gins, &ginCfg{route, ep.Endpoint, ep.QueryString, ep.Backend[0].QueryStringsToPass, g.pattern, ep.Backend[0].URLPattern, hosts, handler, two})
 	}
-	ginCase := func(g *ginCfg, target string, kind string) {
-		rec.reset()
+	type ginRes struct {
+		malformed bool
+		status    int
+		panicText string
+		rc        *recorder
+	}
+	ginRun := func(g *ginCfg, target string) ginRes {
+		rc := &recorder{}
 		raw := "GET " + target + " HTTP/1.1\r\nHost: gw.example\r\n\r\n"
 		req, err := http.ReadRequest(bufio.NewReader(strings.NewReader(raw)))
-		malformed := err != nil
-		status := 0
-		panicText := ""
-		if !malformed {
+		res := ginRes{malformed: err != nil, rc: rc}
+		if !res.malformed {
+			req = req.WithContext(withRec(req.Context(), rc))
 			rr := httptest.NewRecorder()
 			func() {
 				defer func() {
 					if x := recover(); x != nil {
-						panicText = fmt.Sprint("panic: ", x)
+						res.panicText = fmt.Sprint("panic: ", x)
 					}
 				}()
 				g.handler.ServeHTTP(rr, req)
 			}()
-			status = rr.Code
+			res.status = rr.Code
 		}
+		return res
+	}
+	ginObsCoq := func(res ginRes) string {
 		outer := "None"
-		var outerJS interface{}
-		if rec.outer != nil {
-			outer = emit.Some(emit.Pair(emit.StrMap(rec.outer.params), valuesCoq(rec.outer.query)))
-			outerJS = map[string]interface{}{"params": rec.outer.params, "query": rec.outer.query}
+		if res.rc.outer != nil {
+			outer = emit.Some(emit.Pair(emit.StrMap(res.rc.outer.params), valuesCoq(res.rc.outer.query)))
 		}
-		c := rec.call()
-		obs := fmt.Sprintf("{| g_status := %s; g_outer := %s; g_inner := %s; g_call := %s |}", emit.Z(int64(status)), outer, innerCoq(rec.inner), c.coq())
+		return fmt.Sprintf("{| g_status := %s; g_outer := %s; g_inner := %s; g_call := %s |}", emit.Z(int64(res.status)), outer, innerCoq(res.rc.inner), res.rc.call().coq())
+	}
+	ginEmit := func(g *ginCfg, target string, res ginRes, kind string) {
+		malformed, status := res.malformed, res.status
+		var outerJS interface{}
+		if res.rc.outer != nil {
+			outerJS = map[string]interface{}{"params": res.rc.outer.params, "query": res.rc.outer.query}
+		}
+		c := res.rc.call()
+		obs := ginObsCoq(res)
 		w.Count("gin:" + kind)
 		switch {
 		case malformed:
@@ -659,10 +750,13 @@ func main() {
 			w.Count(fmt.Sprintf("gin-outcome:%d no call", status))
 		}
 		w.Add(emit.App("CGin", g.route, emit.StrList(g.allow), emit.StrList(g.beAllow), emit.Str(g.inited), emit.StrList(g.hosts), emit.Str(target), emit.Bool(malformed), obs),
-			map[string]interface{}{"level": "gin", "route": g.routeJS, "input_query_strings": g.allow, "backend_input_query_strings": g.beAllow, "url_pattern": g.pattern, "hosts": g.hosts,
+			map[string]interface{}{"level": "gin", "stream": kind, "route": g.routeJS, "input_query_strings": g.allow, "backend_input_query_strings": g.beAllow, "url_pattern": g.pattern, "hosts": g.hosts,
 				"request_target": target, "request_target_bytes": []byte(target),
-				"observed": map[string]interface{}{"malformed": malformed, "status": status, "proxy_saw": outerJS, "backend_stage": innerJS(rec.inner), "call": c.js(), "panic": panicText}},
+				"observed": map[string]interface{}{"malformed": malformed, "status": status, "proxy_saw": outerJS, "backend_stage": innerJS(res.rc.inner), "call": c.js(), "panic": res.panicText}},
 			"", fmt.Sprintf("G|%s|%s|%v|%s", g.routeJS, g.pattern, g.allow, target), strings.ContainsAny(target, "%?#"))
+	}
+	ginCase := func(g *ginCfg, target string, kind string) {
+		ginEmit(g, target, ginRun(g, target), kind)
 	}
 	tgt := func(g *ginCfg, a, b string) string {
 		if g.two {
@@ -724,6 +818,160 @@ func main() {
 		ginCase(g, t, "random")
 	}
 
+	// ================= instance reuse =================
+	// ONE balancer+proxy / stack / engine instance serves a sequence of requests that differ in
+	// path, static query, parameters and forwarded query: anything kept from an earlier request
+	// (a cached URL, query or verdict of the checker) shows in a later observation. Every step
+	// is an ordinary case; --only idx re-runs the whole sequence up to idx.
+	for _, hosts := range hostSets[1:] {
+		for _, seq := range seqAsm {
+			lb := newLB(hosts)
+			for _, in := range seq {
+				c, errText := asmOn(lb, in.p, in.q)
+				asmEmit(hosts, in.p, in.q, c, errText, "reuse-seq")
+			}
+		}
+	}
+	for i := 0; i < 12*mul; i++ {
+		hosts := hostSets[r.Intn(len(hostSets))]
+		lb := newLB(hosts)
+		for k := 0; k < 5; k++ {
+			p := "/b/" + randSeg(r, 6, false)
+			if r.Chance(1, 2) {
+				p += "?s=" + fmt.Sprint(r.Intn(9))
+			}
+			q := randValues(r)
+			c, errText := asmOn(lb, p, q)
+			asmEmit(hosts, p, q, c, errText, "reuse-seq-random")
+		}
+	}
+	for _, st := range stacks {
+		for _, in := range []struct {
+			a, b string
+			q    map[string][]string
+		}{{"one", "w1", qv("k", "v")}, {"two", "w2", nil}, {"one", "w3", qv("k", "v2", "z", "")}, {"x y", "w1", qv("k", "v")}, {"three", "w 4", qv("z", "a&b=c")}, {"one", "w1", nil}} {
+			stack(st, mkParams(st, in.a, in.b), in.q, "reuse-seq")
+		}
+	}
+	for _, g := range gins {
+		for _, t := range []string{tgt(g, "one", "w1") + "?k=1&z=2", tgt(g, "two", "w2"), tgt(g, "x%3Fy", "w1"), tgt(g, "three", "w3") + "?k=2", tgt(g, "one", "w1") + "?k=9&k=1",
+			tgt(g, "x%2541", "w1") + "?k=1", tgt(g, "four", "x%23y"), tgt(g, "four", "w4"), tgt(g, "one", "w1")} {
+			ginCase(g, t, "reuse-seq")
+		}
+	}
+
+	// concurrent reuse: the same instance hit from several goroutines released together, many
+	// iterations over a few distinct inputs; every distinct (input, observation) pair is
+	// emitted once, so a run without interference yields exactly one case per input
+	// (the host picked by the balancer is not part of the key).
+	goroutines, iters := 8, 300
+	if cfg.Thorough() {
+		goroutines, iters = 16, 2000
+	}
+	type hit struct {
+		j    int
+		emit func()
+	}
+	concurrent := func(distinct int, run func(j int) (string, func())) {
+		res := make([]map[string]hit, goroutines)
+		start := make(chan struct{})
+		var wg sync.WaitGroup
+		for g := 0; g < goroutines; g++ {
+			res[g] = map[string]hit{}
+			wg.Add(1)
+			go func(g int) {
+				defer wg.Done()
+				<-start
+				for k := 0; k < iters; k++ {
+					j := (g*5 + k) % distinct
+					key, em := run(j)
+					key = fmt.Sprintf("%03d|%s", j, key)
+					if _, ok := res[g][key]; !ok {
+						res[g][key] = hit{j, em}
+					}
+				}
+			}(g)
+		}
+		close(start)
+		wg.Wait()
+		all := map[string]hit{}
+		for g := 0; g < goroutines; g++ {
+			for k, v := range res[g] {
+				if _, ok := all[k]; !ok {
+					all[k] = v
+				}
+			}
+		}
+		ks := make([]string, 0, len(all))
+		for k := range all {
+			ks = append(ks, k)
+		}
+		sort.Strings(ks)
+		for _, k := range ks {
+			all[k].emit()
+		}
+	}
+	noHost := func(c *callObs) string {
+		if c == nil {
+			return "not-called"
+		}
+		return strings.Join([]string{c.path, c.rawquery, c.frag, c.wire}, "\x00")
+	}
+	cq := func(j int) map[string][]string {
+		switch j % 3 {
+		case 0:
+			return nil
+		case 1:
+			return qv("k", fmt.Sprintf("v%d", j))
+		}
+		return qv("k", fmt.Sprintf("a %d", j), "k", "&", fmt.Sprintf("j%d", j), "")
+	}
+	{
+		hosts := hostSets[1]
+		lb := newLB(hosts)
+		concurrent(16, func(j int) (string, func()) {
+			p := fmt.Sprintf("/b/c%d", j)
+			if j%2 == 1 {
+				p += fmt.Sprintf("?s=%d", j)
+			}
+			q := cq(j)
+			c, errText := asmOn(lb, p, q)
+			return noHost(c) + "|" + errText, func() { asmEmit(hosts, p, q, c, errText, "reuse-concurrent") }
+		})
+	}
+	for _, st := range []*stackCfg{stacks[1], stacks[6]} {
+		st := st
+		concurrent(12, func(j int) (string, func()) {
+			params := mkParams(st, fmt.Sprintf("p%d", j), fmt.Sprintf("q %d", j))
+			q := cq(j)
+			rc := &recorder{}
+			errText := stackRun(st, rc, params, q)
+			key := noHost(rc.call()) + "|" + innerCoq(rc.inner) + "|" + errText
+			return key, func() { stackEmit(st, params, q, rc, errText, "reuse-concurrent") }
+		})
+	}
+	for _, g := range []*ginCfg{gins[0], gins[2], gins[4]} {
+		g := g
+		concurrent(12, func(j int) (string, func()) {
+			var t string
+			switch j % 4 {
+			case 3:
+				t = tgt(g, fmt.Sprintf("c%d%%3Fx", j), "w")
+			case 2:
+				t = tgt(g, fmt.Sprintf("c%d", j), fmt.Sprintf("w%%20%d", j))
+			default:
+				t = tgt(g, fmt.Sprintf("c%d", j), fmt.Sprintf("w%d", j)) + fmt.Sprintf("?k=%d&z=a%%20b&k=x", j)
+			}
+			res := ginRun(g, t)
+			outer := ""
+			if res.rc.outer != nil {
+				outer = emit.StrMap(res.rc.outer.params) + valuesCoq(res.rc.outer.query)
+			}
+			key := fmt.Sprintf("%v|%d|%s|%s|%s|%s", res.malformed, res.status, outer, innerCoq(res.rc.inner), noHost(res.rc.call()), res.panicText)
+			return key, func() { ginEmit(g, t, res, "reuse-concurrent") }
+		})
+	}
+
 	keys := make([]string, 0)
 	for _, p := range patterns {
 		keys = append(keys, p.pattern)
@@ -738,6 +986,6 @@ func main() {
 	}
 	w.Close("codec: corpus + all 256 single bytes + all 65536 byte pairs (256 row cases) + random strings vs net/url QueryEscape/QueryUnescape/PathUnescape/EscapedPath; ParseQuery and Values.Encode on corpus + random; "+
 		"balancer+http proxy: corpus + every byte in the path x {static query} x {forwarded query} + every %XX + every byte in the static query + random; default stack: 9 url_patterns x every byte / %XX as parameter + random; "+
-		"gin engine (default options) with raw request lines: corpus + every raw byte + every %XX (either case) + every %25XX + random (raw / encoded / double-encoded segments, random client queries); nontrivial = input contains a byte that is escaped or one of % ? # or a non-empty forwarded query",
+		"instance reuse: one balancer+proxy / default stack / gin engine serving sequences of requests that differ in path, static query, parameters and forwarded query, and hit concurrently from 8 (thorough: 16) goroutines over 12-16 distinct inputs, each distinct (input, observation) emitted once; gin engine (default options) with raw request lines: corpus + every raw byte + every %XX (either case) + every %25XX + random (raw / encoded / double-encoded segments, random client queries); nontrivial = input contains a byte that is escaped or one of % ? # or a non-empty forwarded query",
 		true)
 }
